@@ -97,7 +97,9 @@ class Interp:
         assume: Optional[Callable[[Term], Optional[bool]]] = None,
         self_attrs: Optional[Dict[str, Term]] = None,
         unroll: bool = True,
+        track_alloc: bool = False,
     ):
+        self.track_alloc = track_alloc
         self.pkg = pkg
         self.fi = fi
         self.mi: ModuleInfo = fi.module
@@ -715,6 +717,9 @@ class Interp:
                 fname = ("dyn", t)
         else:
             fname = ("dyn", self.expr(f))
+        if self.track_alloc:
+            # every evaluated call expression denotes a distinct run-time object
+            kwargs = kwargs + (("@", C(next(self._uid))),)
         term = self.fold_call(fname, args, kwargs)
         self.emit("call", n, call=("call", fname, args, kwargs), result=term)
         # container mutators on a plain local list, straight-line code
@@ -722,6 +727,11 @@ class Interp:
             cur = self.env.get(f.value.id)
             if cur is not None and cur[0] == "list" and not self._loopstack and not self._guards:
                 self.env[f.value.id] = ("list", cur[1] + (args[1],))
+            elif cur is not None:
+                # symbolic context: the list may now hold the appended value (any number of times)
+                new = ("appended", cur, args[1])
+                self.env[f.value.id] = new
+                self.emit("assign", n, name=f.value.id, value=new)
         return term
 
     def fold_call(self, fname: Any, args: Tuple[Term, ...], kwargs: Tuple[Tuple[str, Term], ...]) -> Term:
@@ -769,6 +779,15 @@ def calls_in(t: Term, fname: Optional[str] = None) -> List[Term]:
     return [x for x in walk(t) if x[0] == "call" and (fname is None or x[1] == fname)]
 
 
+def strip_alloc(t: Term) -> Term:
+    """Remove allocation tags added by Interp(track_alloc=True)."""
+    def fn(x):
+        if x[0] == "call" and any(k == "@" for k, _ in x[3]):
+            return ("call", x[1], x[2], tuple((k, v) for k, v in x[3] if k != "@"))
+        return None
+    return subst(t, fn)
+
+
 def kw(call: Term, name: str, pos: Optional[int] = None) -> Optional[Term]:
     """Keyword (or positional fallback) argument of a call term."""
     for k, v in call[3]:
@@ -804,7 +823,7 @@ def show(t: Any, depth: int = 0) -> str:
     if k == "call":
         f = t[1]
         args = [show(a, d) for a in t[2]]
-        kws = [f"{n}={show(v, d)}" for n, v in t[3]]
+        kws = [f"{n}={show(v, d)}" for n, v in t[3] if n != "@"]
         if isinstance(f, str) and f.startswith("."):
             return f"{args[0]}{f}({', '.join(args[1:] + kws)})"
         fn = f.replace("numpy.", "np.").replace("builtins.", "") if isinstance(f, str) else f"({show(f[1], d)})"
@@ -843,6 +862,8 @@ def show(t: Any, depth: int = 0) -> str:
         return show(t[1], d)
     if k == "unknown":
         return f"<{t[1]}>"
+    if k == "appended":
+        return f"{show(t[1], d)}++[{show(t[2], d)}]"
     return "(" + " ".join(show(x, d) if isinstance(x, tuple) else str(x) for x in t) + ")"
 
 
